@@ -310,6 +310,37 @@ let check_call (f : string) (a : sx list) : string option =
     | Some i -> (String.sub f 0 i, String.sub f (i + 1) (String.length f - i - 1))
     | None -> (f, "") in
   match pre, fn, a with
+  (* ---- order-free types: validate_op / validate_merge accept everything; Default; constructors *)
+  | ("gcounter" | "pncounter" | "gset" | "maxreg" | "minreg" | "glist" | "mvreg"), ("validate_op" | "validate_merge"), [_; _; r] -> cmpb true (okerr r)
+  | ("vclock" | "merkle"), "validate_merge", [_; _; r] -> cmpb true (okerr r)
+  | "gset", "default", [s] -> cmp nset_eqb show_nset (nset_of_list []) (nset_sx s)
+  | ("maxreg" | "minreg"), "default", [s] -> cmp (=) show_n (n_of_int 0) (n_sx (field "val" s))
+  | ("maxreg" | "minreg"), "new", [v; s] -> cmp (=) show_n (n_sx v) (n_sx (field "val" s))
+  | "lww", "default", [s] -> cmp (=) (fun (a, b) -> show_n a ^ "@" ^ show_n b) (n_of_int 0, n_of_int 0) (n_sx (field "val" s), n_sx (field "marker" s))
+  | "lww", "new", [v; m; s] -> cmp (=) (fun (a, b) -> show_n a ^ "@" ^ show_n b) (n_sx v, n_sx m) (n_sx (field "val" s), n_sx (field "marker" s))
+  | "dot", "eq", [d; e; r; twin] ->
+      let x = dot_sx d and y = dot_sx e in
+      (match cmpb (x.dactor = y.dactor && x.dcounter = y.dcounter) (bool_sx r) with
+       | Some m -> Some m
+       | None -> cmpb true (bool_sx twin))
+  | "list", "op_id", [o; i; d] ->
+      (match lop_sx o with
+       | LInsert (id, _) ->
+           (match cmp (=) (show_ident (fun (a, c) -> show_n a ^ "." ^ show_n c)) id (ident_sx orddot_sx i) with
+            | Some m -> Some m
+            | None ->
+                (* the op's dot is the marker of the last path node of a freshly built identifier *)
+                (match List.rev id with
+                 | (_, (a, c)) :: _ -> cmp (=) show_dot { dactor = a; dcounter = c } (dot_sx d)
+                 | [] -> Some "empty identifier"))
+       | LDelete (id, dd) ->
+           (match cmp (=) (show_ident (fun (a, c) -> show_n a ^ "." ^ show_n c)) id (ident_sx orddot_sx i) with
+            | Some m -> Some m
+            | None -> cmp (=) show_dot dd (dot_sx d)))
+  | "ident", "from", [k; v; r] ->
+      let z = int_sx k in
+      let q = mkqc (if z >= 0 then z_of_n (n_of_int z) else z_opp (z_of_n (n_of_int (- z)))) XH in
+      cmp (=) (show_ident show_n) [(q, n_sx v)] (ident_sx n_sx r)
   (* ---- vclock *)
   | ("vclock" | "gcounter"), "get", [c; x; r] -> cmp (=) show_n (vget (vc_sx c) (n_sx x)) (n_sx r)
   | "vclock", "is_empty", [c; r] -> cmpb (vis_empty (vc_sx c)) (bool_sx r)
